@@ -310,7 +310,7 @@ func c51JwtMod() *c51Mod {
 		run:   c51JwtRun,
 		scen:  [2]int{4, 24},
 		cases: [2]int{1000, 2500},
-		must:  []string{"jwt_uncovered_passed", "jwt_not_judged", "jwt_valid_HS", "jwt_valid_RS", "jwt_valid_PS", "jwt_valid_ES"},
+		must:  []string{"jwt_uncovered_passed", "jwt_not_judged", "jwt_valid_HS", "jwt_valid_RSA", "jwt_valid_ES"},
 	}
 }
 
@@ -1181,6 +1181,9 @@ func c51JwtRun(r *vkit.Run, env *modEnv, sci interface{}, cfgSeed, caseSeed uint
 	}
 	if want == c51Admit && admitted && len(c.Alg) > 2 {
 		r.Count("jwt_valid_"+c.Alg[:2], 1)
+		if c.Alg[1] == 'S' && c.Alg[0] != 'H' && c.Alg[0] != 'E' {
+			r.Count("jwt_valid_RSA", 1)
+		}
 	}
 	c51Verdict(r, w, want, obs, admitted, rejected, bad, c.Alg+":"+c.Shape)
 	if r.WantSample() && c.Shape != "valid" && c51SampleGate(caseSeed) {
